@@ -582,3 +582,73 @@ def c19_c(ctx):
                     yield bad("C19-C", key, at(f, t["span"]["line"]), "Counter::start on %s un-pauses the counter with its old start time: the time spent paused (suspended) counts as elapsed expirations" % recv)
     if n == 0:
         raise Anchor("C19-C", "Counter::start call sites")
+
+
+# ================================================================ C17-T2: timer wiring
+@rule("C17", "C17-T2", 8, "each limit timer is built from the like-named configured timeout and limit, each Timer helper drives the like-named counter, and restart accounts for elapsed time before un-pausing")
+def c17_t2(ctx):
+    from common import simp, sstr
+
+    # (a) the transactions' Timer::new(..) calls: parameter X_timeout <- config.X_timeout, X_max_count <- config.max_count
+    tn = ctx.one("C17-T2", "timer::Timer::new")
+    params = [vn for vn, l, pj in sorted(tn.var_places, key=lambda x: x[1]) if not pj and 1 <= l <= tn.arg_count]
+    for adt, nm in TXNS:
+        fns = [f for f in impl_fns(ctx, adt) if f.name == "new"]
+        n = 0
+        for f in fns:
+            eb = ExprBuilder(ctx.prog, f)
+            for b, t in f.all_calls():
+                if not (ctx.prog.callee_of(t)[1] or ctx.prog.callee_of(t)[0] or "").endswith("timer::Timer::new"):
+                    continue
+                n += 1
+                e = simp(eb.call(b, t))
+                problems = []
+                for pn, a in zip(params, e[3]):
+                    at_ = expr_str(a)
+                    want = "config." + pn if pn.endswith("_timeout") else "config.max_count"
+                    if at_ != want:
+                        problems.append("%s <- %s (expected %s)" % (pn, at_, want))
+                key = "%s::new:Timer::new" % nm
+                if problems:
+                    yield bad("C17-T2", key, at(f, t["span"]["line"]), "timer parameters cross-wired: " + "; ".join(problems))
+                else:
+                    yield ok("C17-T2", key, at(f, t["span"]["line"]), "six parameters wired to the like-named configuration fields")
+        if n == 0:
+            raise Anchor("C17-T2", nm + "::new -> Timer::new")
+    # (b) Timer::new: field X <- Counter::new(from_secs(X_timeout), X_max_count)
+    ebt = ExprBuilder(ctx.prog, tn)
+    for _f, b, j, s in agg_sites([tn], "timer::Timer"):
+        e = simp(ebt.rvalue(s["rv"]))
+        for fld, v in zip(e[4], e[5]):
+            txt = expr_str(v)
+            want = "Counter::new(Duration::from_secs((%s_timeout as u64)), %s_max_count)" % (fld, fld)
+            key = "Timer::new:%s" % fld
+            if txt == want:
+                yield ok("C17-T2", key, at(tn, s["span"]["line"]), want)
+            else:
+                yield bad("C17-T2", key, at(tn, s["span"]["line"]), "Timer.%s is built as %s (expected %s)" % (fld, txt[:160], want))
+    # (c) helpers: restart_X / reset_X call self.X.restart / reset
+    for f in impl_fns(ctx, "cfdp_daemon::timer::Timer"):
+        m = re.match(r"^(restart|reset)_(\w+)$", f.name)
+        if not m:
+            continue
+        ebf = ExprBuilder(ctx.prog, f)
+        calls = [sstr(ebf.call(b, t)) for b, t in f.all_calls()]
+        want = "Counter::%s(self.%s)" % (m.group(1), m.group(2))
+        key = "Timer::%s" % f.name
+        if calls == [want]:
+            yield ok("C17-T2", key, at(f), want)
+        else:
+            yield bad("C17-T2", key, at(f), "Timer::%s does %s (expected %s)" % (f.name, calls, want))
+    # (d) Counter::restart: update() runs while the counter is still marked paused/unpaused as before,
+    #     i.e. before `paused = false`
+    r = ctx.one("C17-T2", "timer::Counter::restart")
+    upd = [b for b, t in r.all_calls() if (ctx.prog.callee_of(t)[1] or ctx.prog.callee_of(t)[0] or "").endswith("Counter::update")]
+    unp = [b for _f, b, j, s, ps in field_writes([r], "self.paused")]
+    if upd and unp and all(all(u in r.reachable(r.blocks[x]["term"]["target"]) or u == r.blocks[x]["term"]["target"] for u in unp) for x in upd) and not any(x in r.reachable(u) and x != u for u in unp for x in upd):
+        yield ok("C17-T2", "Counter::restart:order", at(r), "update() before paused = false")
+    elif upd and unp and all(u == x for u in unp for x in upd):
+        # same block: the call terminator comes after the block's statements -> the write precedes the call
+        yield bad("C17-T2", "Counter::restart:order", at(r), "restart un-pauses the counter before accounting for elapsed time: the time spent paused is counted as expirations")
+    else:
+        yield bad("C17-T2", "Counter::restart:order", at(r), "restart does not call update() before un-pausing (update blocks %s, un-pause blocks %s): the time spent paused is counted as expirations" % (upd, unp))
